@@ -80,6 +80,9 @@ func discharge(o *Obligation, dir string, secs int, wantModel bool) {
 		o.Note = err.Error()
 		return
 	}
+	if o.Expect == "sat" && secs > 3 {
+		secs = 3
+	}
 	ctx, cancel := context.WithCancel(context.Background())
 	defer cancel()
 	ch := make(chan solveOut, len(solvers))
